@@ -38,6 +38,8 @@ def _do(job):
         return R.fin_case(copy.deepcopy(case))
     if kind == "hist":
         return R.rand_history_lines(random.Random(case["seed"]), case["steps"])
+    if kind == "api":
+        return R.api_case(case)
     if kind == "shape":
         return R.shape_case(case)
     if kind == "exc":
@@ -80,7 +82,9 @@ def judge_jobs(ctx: Ctx, jobs, kind="c05"):
                 cases.append((k, case))
     for ln in lines:
         ctx.count(1)
-        if ln["op"] == "shape":
+        if ln["op"] == "hdrx":
+            ctx.nontrivial.add(("api", ln["target"], ln["c"]["kind"], ln["exc"]))
+        elif ln["op"] == "shape":
             ctx.nontrivial.add(("shape", ln["init"]["kind"], ln["init"]["pt"], tuple((h["o"], h["k"], h["b"], h["exc"]) for h in ln["hist"][:3]),
                                 ln["method"] == "HEAD", ln["code"]))
         elif ln["op"] == "exc":
@@ -88,7 +92,7 @@ def judge_jobs(ctx: Ctx, jobs, kind="c05"):
         elif ln["op"] == "hdr":
             c = ln["c"]
             if any(10 in v or 13 in v for v in c["vs"] + [c["kv"]] + [v for p in c["ps"] for v in p["vs"]]):
-                ctx.nontrivial.add(("hdr", c["m"], c["form"], len(ln["pre"]), ln["exc"]))
+                ctx.nontrivial.add(("hdr", c["m"], c["form"], len(ln["pre"]), ln["exc"], c.get("kind", "str")))
         else:
             i, o = ln["inp"], ln["out"]
             ctx.nontrivial.add(("fin", i["shape"], i["pt"], i["st"]["kind"], bytes(o["status"][:3]), i["method"], i["cl"]["has"],
@@ -99,13 +103,19 @@ def judge_jobs(ctx: Ctx, jobs, kind="c05"):
     for r in rejects:
         ln = lines[r["t"]]
         k, case = cases[r["t"]]
-        if k == "shape":
+        if k == "api":
+            ctx.violation(f"Kind{r['clause']}:{case['api']}:{case['kind']}", "Kind" + r["clause"], case, kind="api")
+        elif k == "shape":
             ctx.violation(shape_key(r["clause"], ln), r["clause"], case, kind="shape")
         elif k == "exc":
             ctx.violation(f"{r['clause']}:{ln['cls']}:{ln['via']}", r["clause"], case, kind="exc")
         elif k == "hdr":
             c = ln["c"]
-            ctx.violation(f"{r['clause']}:{c['m']}:{c['form'] or '-'}", r["clause"], case, kind="hdr")
+            vk = c.get("kind", "str")
+            if vk == "str":
+                ctx.violation(f"{r['clause']}:{c['m']}:{c['form'] or '-'}", r["clause"], case, kind="hdr")
+            else:   # value kinds other than str: own clause prefix
+                ctx.violation(f"Kind{r['clause']}:{c['m']}:{c['form'] or '-'}:{vk}", "Kind" + r["clause"], case, kind="hdr")
         else:
             ctx.violation(fin_key(r["clause"], ln["inp"]), r["clause"], case, kind="fin")
     return lines
@@ -305,8 +315,12 @@ def run(ctx: Ctx):
     jobs = []
     if q:   # quick: a seeded sample of the exported transitions (thorough replays all of them)
         trans = rng.sample(trans, min(len(trans), 12000))
+    kinds = [k for k in R.VALUE_KINDS if k not in ("int", "literal")]     # kinds whose str() is the model's text
     for n, tr in enumerate(trans):
-        jobs.append(("hdr", {"pre": tr["pre"], "c": tr["c"], "target": "Headers" if n % 2 else "Response.headers"}))
+        c = dict(tr["c"], kind=kinds[(n // 2) % len(kinds)])
+        jobs.append(("hdr", {"pre": tr["pre"], "c": c, "target": "Headers" if n % 2 else "Response.headers"}))
+    for spec in R.api_specs(rng, 4 if q else 10):
+        jobs.append(("api", spec))
     for row in table:
         row = dict(row)
         row["mhdrs"] = row.pop("hdrs")
@@ -323,7 +337,7 @@ def run(ctx: Ctx):
     lines = judge_jobs(ctx, jobs)
     repo_test_traces(ctx, REPO_QUICK_FILES if q else ("tests",), 80 if q else 110, 400 if q else 550)
     for ln in lines[:: max(1, len(lines) // 5)]:
-        if ln["op"] in ("shape", "exc"):
+        if ln["op"] in ("shape", "exc", "hdrx"):
             continue
         if ln["op"] == "fin":
             i, o = ln["inp"], ln["out"]
